@@ -47,6 +47,7 @@ package pointstore
 //@   property C01
 //@   pure
 //@   safety -overflow
+//@   after Get assume result == nil || len(result) >= 8
 //@   requires forallv(x uint64, true)
 //@   ensures callres(Get, 1, 0) == nil ==> err == ErrPointDoesNotExist
 //@   ensures err != nil ==> err == ErrPointDoesNotExist
